@@ -442,10 +442,7 @@ def execute(scenario, tape=None, keep_events=False):
         if st.died is not None:
             viols.append(Violation("receive-thread-died", f"thread={tid} exc={type(st.died).__name__}", repr(st.died)))
 
-    queue = list(getattr(node, "_msg_queue"))
-    for e in queue:
-        if not (isinstance(e, tuple) and len(e) == 3):
-            raise HarnessError(f"unexpected queue entry shape: {e!r}")
+    queue = _queue_entries(node)
     for i, peer in enumerate(peers):
         sock = peer.sock
         if sock is None:
@@ -517,6 +514,37 @@ def execute(scenario, tape=None, keep_events=False):
     res.stats["events"] = log.events if keep_events else None
     res.features = {"stratum": scenario["stratum"]}
     return res
+
+
+def _queue_entries(node):
+    """The node's message queue as a list of (peer_no, command bytes, parsed payload),
+    tolerant of the container (deque, list, queue.Queue) and of the entry shape (tuple,
+    list, mapping or object with peer/command/payload fields)."""
+    q = getattr(node, "_msg_queue", None)
+    if q is None:
+        q = getattr(node, "msg_queue", None)
+    if q is None:
+        raise HarnessError("the node has no _msg_queue attribute to observe")
+    if hasattr(q, "queue") and not hasattr(q, "__iter__"):
+        q = q.queue
+    out = []
+    for e in list(q):
+        if isinstance(e, (tuple, list)) and len(e) == 3:
+            peer, cmd, payload = e
+        elif isinstance(e, dict):
+            peer = e.get("peer_no", e.get("peer"))
+            cmd, payload = e.get("command"), e.get("payload")
+        elif hasattr(e, "command"):
+            peer = getattr(e, "peer_no", getattr(e, "peer", None))
+            cmd, payload = e.command, getattr(e, "payload", None)
+        else:
+            raise HarnessError(f"unexpected queue entry shape: {e!r}")
+        if isinstance(cmd, str):
+            cmd = cmd.encode()
+        if isinstance(cmd, (bytes, bytearray)):
+            cmd = bytes(cmd).rstrip(b"\x00")
+        out.append((peer, cmd, payload))
+    return out
 
 
 def _diff_replies(i, got, exp, nonce_owner):
